@@ -572,6 +572,24 @@ def gen_scenario(seed):
             st['cat'] = top
         sessions.append({'stmts': stmts, 'script': gen_script(rng, nst), 'cache_templates': rng.random() < 0.3, 'logs': rng.random() < 0.35, 'graft': rng.random() < 0.2})
     threads = rng.random() < 0.2
+    if nsess >= 2 and rng.random() < (0.4 if threads else 0.08):
+        # twin sessions: several clients prepare the SAME statement at the same time (a server gets one prepared statement from
+        # many connections), some with the same values, some with values of other types, each on its own planner, and execute it
+        # repeatedly.  Anything keyed by the statement's text or shape or by the types of the values is shared between them.
+        base_ = sessions[0]
+        for i in range(1, nsess):
+            tw = copy.deepcopy(base_)
+            if rng.random() < 0.5:
+                for st in tw['stmts']:
+                    st['tag'] = rng.choice([rng.randrange(8), 100 + rng.randrange(10), 50 + rng.randrange(8) if st['d'] == 'mindsdb' else rng.randrange(8)])
+            sessions[i] = tw
+        for sd in sessions:
+            sc = []
+            for si in range(len(sd['stmts'])):
+                sc += [['P', si], ['A*', 'ok'], ['I'], ['X'], ['E*']]
+                for _ in range(rng.randint(1, 2)):
+                    sc += [['Pc', si], ['A*', 'ok'], ['I'], ['X'], ['E*']]
+            sd['script'] = sc
     spec = {'cmd': 'c12', 'property': PROP, 'seed': seed, 'hashseed': seed % 16, 'sessions': sessions, 'threads': threads,
             'order_seed': rng.randrange(1 << 30), 'share_catalog': rng.random() < 0.5, 'share_values': rng.random() < 0.4}
     if threads:
@@ -581,6 +599,12 @@ def gen_scenario(seed):
             # dense pre-emption in the code that collects and binds placeholders and keeps the session state
             spec['strategy'] = {'kind': 'focus', 'p': rng.choice([0.1, 0.3, 0.6]),
                                 'files': ['mindsdb_sql/planner/utils.py', 'mindsdb_sql/planner/query_prepare.py']}
+            if rng.random() < 0.6:
+                # ... but not in the generic tree walker, which owns most of the lines executed there: the hand-overs then
+                # concentrate in the code that collects, counts and binds (a client runs freely until it gets there too), so
+                # that two sessions go through it in lockstep
+                spec['strategy']['skip_names'] = ['query_traversal']
+                spec['strategy']['p'] = rng.choice([0.3, 0.5, 0.8])
         spec['sched_seed'] = rng.randrange(1 << 30)
     return spec
 
